@@ -274,6 +274,11 @@ func init() {
 		t.p.schedNondet = t.p.Branch(args[0].(*Term))
 		return nil
 	}
+	// vRaces: number of data races seen so far on this path (conflicting pending
+	// accesses of two runnable tasks, neither holding a lock; only with vPreempt > 0)
+	harnessAPI["vRaces"] = func(t *Task, fn *ssa.Function, args []Value) Value {
+		return t.p.C.Const(64, uint64(len(t.p.races)))
+	}
 	harnessAPI["vPreempt"] = func(t *Task, fn *ssa.Function, args []Value) Value {
 		t.p.preemptBound = t.p.ConcInt(args[0].(*Term), "preemption bound")
 		return nil
